@@ -86,6 +86,7 @@ ValExprs == {
   FCallX("std.itoa", <<i10>>), FCallX("regsub", <<idA, sRe, sB>>), FCallX("now", <<>>),
   IfX(Cmp, sA, Cat(sA, idB, TRUE)), IfX(Not, idA, sB),
   Not, Cmp, Group(Cmp), Prefix("-", i10),
+  Cat(Id("now"), RTime("10m"), TRUE), Cat(sA, i10, TRUE), Cat(Cat(i10, sA, TRUE), bT, TRUE),     \* + that is not a juxtaposition
   Group(Infix("&&", Group(Cmp), Prefix("!", Group(Mat)))),                        \* nested groups, prefix on a group
   Prefix("!", Group(Infix("||", Cmp, Not)))
 }
@@ -257,7 +258,7 @@ Stmts ==
   \cup IfStmts \cup SwitchStmts
 
 \* return inside a subroutine that returns a value
-FnReturns == {Return(bT, "plain"), Return(Cmp, "plain"), Return(Cmp, "paren"), Return(Cat(sA, idB, TRUE), "plain"),
+FnReturns == {Return(Infix("&&", Group(idA), idB), "paren"), Return(Group(Group(Cmp)), "paren"), Return(bT, "plain"), Return(Cmp, "plain"), Return(Cmp, "paren"), Return(Cat(sA, idB, TRUE), "plain"),
               Return(Not, "plain"), Return(FCallX("std.itoa", <<i10>>), "plain")}
 
 (***************************************************************************)
@@ -346,7 +347,7 @@ Decls ==
    Table("t1", "", <<>>), Table("t1", "STRING", <<TProp(sA, sB, TRUE)>>), Table("t1", "", <<TProp(sB, sA, TRUE), TProp(sA, sB, FALSE)>>),
    Table("t1", "STRING", <<TProp(Str("k e", "\"k%20e\""), sEsc, TRUE)>>),
    Table("t1", "BACKEND", <<TProp(sB, Id("b1"), TRUE), TProp(sA, Id("b2"), TRUE)>>),
-   Table("t1", "INTEGER", <<TProp(sA, i10, TRUE)>>),
+   Table("t1", "INTEGER", <<TProp(sA, i10, TRUE)>>), Table("t1", "STRING", <<TProp(sLong, sB, TRUE), TProp(sA, sLong, TRUE)>>),
    Empty("penaltybox", "p1"), Empty("ratecounter", "r1"),
    Import("geo"), Include("mod", "\"mod\""),
    Sub("vcl_recv", <<>>, "", <<>>), Sub("helper", <<>>, "", <<SetA, LogA>>),
@@ -372,7 +373,8 @@ UnitDocs ==
 SortPool == <<Sub("vcl_deliver", <<>>, "", <<Esi>>), Sub("helper", <<>>, "", <<SetA>>), Sub("vcl_recv", <<>>, "", <<LogA>>),
               Table("t1", "", <<TProp(sA, sB, TRUE)>>), Acl("a1", <<Cidr(FALSE, "10.0.0.1", "")>>), Backend("b1", <<pHost>>),
               Import("geo"), Sub("aaa", <<>>, "", <<Restart>>), Acl("a0", <<>>)>>
-SortPool2 == SortPool \o <<Empty("penaltybox", "p1"), Empty("ratecounter", "r1"), Director("d1", "random", <<>>), Include("mod", "\"mod\"")>>
+\* (a reserved subroutine may be declared more than once: Fastly concatenates the bodies)
+SortPool2 == SortPool \o <<Sub("vcl_recv", <<>>, "", <<Esi>>), Sub("vcl_deliver", <<>>, "", <<Restart, LogA>>), Empty("penaltybox", "p1"), Empty("ratecounter", "r1"), Director("d1", "random", <<>>), Include("mod", "\"mod\"")>>
 Perms(n, k) == {s \in [1..k -> 1..n] : \A i, j \in 1..k : i # j => s[i] # s[j]}
 \* pairs over all 13 declarations, triples over the first 9
 MultiDocs(k) ==
@@ -396,7 +398,10 @@ sU4  == Str("A", "\"%u0041\"")
 sUb  == Str("B", "\"%u{42}\"")
 sLP  == Str("l%20m % n", "{\"l%20m % n\"}")     \* long strings are never decoded
 sML3 == Str("p\n\n\n q", "{\"p\n\n\n q\"}")  \* two empty lines inside a literal
-EscStrs == {sP2, sP20, sU4, sUb, sLP, sML3}
+\* inner lines of a long string that end in a blank or a tab, are empty, or begin with blanks
+sMLt == Str("p \n q\t\n\n  r", "{\"p \n q\t\n\n  r\"}")
+sNL == Str("x\n   y", "\"x\n   y\"")            \* a double-quoted string written over two lines
+EscStrs == {sP2, sP20, sU4, sUb, sLP, sML3, sMLt, sNL}
 EscStmts(s) ==
   {SetS(idA, "=", s), AddS(idC, "=", s), ValS("log", "log", s), ValS("synthetic", "synthetic", s),
    ValS("synthetic64", "synthetic.base64", s), ErrorS(Int("601", "601"), s), Call("helper", <<s, idB>>, "parens"),
@@ -405,7 +410,7 @@ EscStmts(s) ==
    If(Infix("==", idA, s), <<Esi>>, <<>>, NoneObj), If(Infix("~", idA, s), <<Esi>>, <<>>, NoneObj),
    If(Cmp, <<Esi>>, <<Elif(W("elsif"), "elsif", Infix("&&", Infix("!=", idB, s), Not), <<LogA>>)>>, NoneObj),
    Switch(FCallX("regsub", <<idA, s, sB>>), <<Case(TestEq(sA), <<Break>>, FALSE)>>)}
-  \cup (IF s \in {sLP, sML3} THEN {} ELSE {Switch(idA, <<Case(TestEq(s), <<Break>>, FALSE)>>)})      \* a case label is not a long string
+  \cup (IF s \in {sLP, sML3, sMLt} THEN {} ELSE {Switch(idA, <<Case(TestEq(s), <<Break>>, FALSE)>>)})      \* a case label is not a long string
 EscDecls(s) ==
   {Table("t1", "STRING", <<TProp(s, sB, TRUE)>>), Table("t1", "", <<TProp(sA, s, TRUE)>>), Table("t1", "STRING", <<TProp(s, s, FALSE)>>),
    Backend("b1", <<Prop("bprop", "host", s)>>), Backend("b1", <<Probe(<<Prop("bprop", "request", Cat(s, sB, FALSE))>>)>>),
@@ -446,12 +451,34 @@ FewDocs ==
                   Table("t1", "STRING", <<TProp(sA, sB, TRUE)>>), Empty("penaltybox", "p1"),
                   Sub("f1", <<Param("STRING", "var.p")>>, "BOOL", <<Return(Cmp, "paren")>>)}}
 
+(***************************************************************************)
+(* Width sweep: a few statement shapes whose last operand is a literal of  *)
+(* every length 1..SweepMax, so that - at a small line_width - the line    *)
+(* ends at every column around the limit (the "exactly at the boundary"    *)
+(* class: a width measured from something else than what is printed).      *)
+(***************************************************************************)
+SweepMax == 46
+RECURSIVE Wn(_)
+Wn(k) == IF k = 0 THEN "" ELSE "w" \o Wn(k - 1)
+Lit(k) == Str(Wn(k), "\"" \o Wn(k) \o "\"")
+SweepStmts(k) ==
+  {If(Cmp, <<Esi>>, <<Elif(kw[1], kw[2], Infix("==", idA, Cat(sA, Lit(k), TRUE)), <<LogA>>)>>, NoneObj) :
+     kw \in {<<W("else") \o W("if"), "else if">>, <<W("elseif"), "elseif">>, <<W("elsif"), "elsif">>}}
+  \cup {If(Cmp, <<Esi>>, <<Elif(W("elsif"), "elsif", Infix("&&", Cmp, Infix("==", idB, Lit(k))), <<LogA>>)>>, Else(<<Esi>>)),
+        If(Infix("==", idA, Cat(sA, Lit(k), TRUE)), <<Esi>>, <<>>, NoneObj),
+        SetS(idA, "=", Cat(Cat(sA, idB, TRUE), Lit(k), TRUE)), SetS(idA, "=", Cat(sA, FCallX("regsub", <<idA, sB, Lit(k)>>), FALSE)),
+        Call("helper", <<idA, Lit(k)>>, "parens"), FCall("std.collect", <<idA, Lit(k)>>), ValS("log", "log", Cat(idA, Lit(k), FALSE)),
+        ErrorS(Int("601", "601"), Cat(sA, Lit(k), TRUE))}
+SweepDocs ==
+  UNION {{[fam |-> "sweep", focus |-> x.a.k, ds |-> <<Sub("vcl_recv", <<>>, "", <<x>>)>>] : x \in SweepStmts(k)} : k \in 1..SweepMax}
+  \cup {[fam |-> "sweep", focus |-> "return", ds |-> <<Sub("f1", <<Param("STRING", "var.p")>>, "STRING", <<Return(Cat(Cat(sA, idB, TRUE), Lit(k), TRUE), "plain")>>)>>] :
+          k \in 1..SweepMax}
+
 DocA(d) == SeqA(d.ds)
 DocT(d) == CatT(d.ds)
 
 \* gaps of a template, in source order
 GapIdx(t) == {i \in 1..Len(t) : t[i].t = "g"}
-RECURSIVE GapSeqFrom(_, _)
-GapSeqFrom(t, i) == IF i > Len(t) THEN <<>> ELSE (IF t[i].t = "g" THEN <<t[i]>> ELSE <<>>) \o GapSeqFrom(t, i + 1)
-GapSeq(t) == GapSeqFrom(t, 1)
+IsGap(p) == p.t = "g"
+GapSeq(t) == SelectSeq(t, IsGap)
 =============================================================================
